@@ -58,6 +58,14 @@ Theorem C09_no_call_on_error : forall feats cs a n args e, QuoteSpec.tokens_fun 
 Proof. intros feats cs a n args e Ht Hp. unfold dispatch. rewrite Ht, Hp. destruct (f_help feats && _); reflexivity. Qed.
 Print Assumptions C09_no_call_on_error.
 
+(* integer fields (i8 u16 i16 u32 i32 ...; `conv` mirrors core::num's decimal from_str): an accepted value is in the type's range, and
+   a minus sign is accepted only by signed types *)
+Theorem C09_int_range : forall sg bits s v, conv (TInt sg bits) s = Some v ->
+  exists neg n, v = VInt neg n /\
+    (if neg then sg = true /\ 0 < n /\ n <= 2 ^ (bits - 1) else n < (if sg then 2 ^ (bits - 1) else 2 ^ bits)).
+Proof. exact conv_int_range. Qed.
+Print Assumptions C09_int_range.
+
 Example C09_nonvacuous :
   let level := {| a_field := [108]; a_kind := KOpt (Some [108;118]) (Some 108); a_ty := TU8; a_optional := false; a_default := DVal (VNum 5); a_valname := [76]; a_help := None |} in
   let verb := {| a_field := [118]; a_kind := KFlag None (Some 118); a_ty := TBool; a_optional := false; a_default := DNone; a_valname := [86]; a_help := None |} in
@@ -67,5 +75,7 @@ Example C09_nonvacuous :
   /\ parse_enum 4 [c] [99] [[45;108]; [51;48;48]; [120]] = PErr (EParseValue [51;48;48] [117;56])
   /\ parse_enum 4 [c] [99] [[45;118]] = PErr (EMissing [60;70;62])
   /\ parse_enum 4 [c] [99] [[120]; [121]] = PErr (EUnexpArg [121])
-  /\ parse_enum 4 [c] [100] [] = PErr EUnknown.
+  /\ parse_enum 4 [c] [100] [] = PErr EUnknown
+  /\ conv (TInt true 8) [45; 49; 50; 56] = Some (VInt true 128) /\ conv (TInt true 8) [49; 50; 56] = None
+  /\ conv (TInt false 16) [45; 49] = None /\ conv (TInt false 16) [43; 48; 48; 55] = Some (VInt false 7) /\ conv (TInt true 16) [45; 48] = Some (VInt false 0).
 Proof. repeat split; vm_compute; reflexivity. Qed.
